@@ -375,7 +375,7 @@ impl ProofPool {
         self.verifies_in_window += 1;
 
         #[cfg(feature = "verif-hooks")]
-        VERIF_VERIFY_CALLS.fetch_add(1, std::sync::atomic::Ordering::Relaxed);
+        VERIF_VERIFY_CALLS.with(|c| c.set(c.get() + 1));
         self.verifier.verify(proof.clone()).map_err(|e| {
             anyhow!(
                 "refusing to queue invalid private-batch proof: verification failed: {}",
@@ -648,8 +648,10 @@ impl ProofPool {
 /// Verification hooks (off by default): a verification-call counter and a
 /// read-only copy of the pool's internal state for external invariant monitors.
 #[cfg(feature = "verif-hooks")]
-pub static VERIF_VERIFY_CALLS: std::sync::atomic::AtomicUsize =
-    std::sync::atomic::AtomicUsize::new(0);
+thread_local! {
+    /// Per-thread count of admission verifications (monitors run many pools on many threads).
+    pub static VERIF_VERIFY_CALLS: std::cell::Cell<usize> = const { std::cell::Cell::new(0) };
+}
 
 #[cfg(feature = "verif-hooks")]
 #[derive(Debug, Clone)]
